@@ -53,6 +53,9 @@ PrimToStr(v) == IF v.st = "null" THEN Null(TStr)
                 ELSE IF v.ty.k = "string" THEN v
                 ELSE IF v.ty.k = "bool" THEN StrV(IF BoolOf(v) THEN <<"t", "r", "u", "e">> ELSE <<"f", "a", "l", "s", "e">>)
                 ELSE StrV(QText(v.v.q))
+\* flatten: every non-null list / set / tuple element is replaced by its own flattened members (sets in iteration order)
+RECURSIVE FlatSeq(_)
+FlatSeq(v) == ConcatAll([i \in 1..Len(Elems(v)) |-> LET e == Elems(v)[i] IN IF e.st = "k" /\ e.ty.k \in {"list", "set", "tuple"} THEN FlatSeq(e) ELSE <<e>>])
 SRef(fn, a) ==
   LET n == Len(a) IN
   CASE fn = "length" ->
@@ -177,6 +180,10 @@ SRef(fn, a) ==
                             [] fn = "setsymmetricdifference" -> (acc \ SetOf(a[i])) \cup (SetOf(a[i]) \ acc), i + 1)
               IN OKV([ty |-> a[1].ty, st |-> "k", v |-> [z |-> Fold(SetOf(a[1]), 2)]])
          ELSE UNDEF
+    [] fn = "flatten" ->
+         IF n = 1 /\ IsSeqV(a[1]) THEN LET fs == FlatSeq(a[1]) IN OKV(SeqV(TTup([i \in 1..Len(fs) |-> fs[i].ty]), fs))
+         ELSE IF n = 1 /\ a[1].st = "k" /\ a[1].ty.k \in {"map", "object", "number", "string", "bool"} THEN REJ
+         ELSE UNDEF
     [] fn = "sethaselement" ->
          IF n = 2 /\ a[1].st = "k" /\ a[1].ty.k = "set" /\ TEquals(a[2].ty, a[1].ty.e) /\ a[2].st = "k"
          THEN OKV(BoolV(\E i \in 1..Len(Elems(a[1])) : AbsEq(Elems(a[1])[i], a[2]))) ELSE UNDEF
@@ -184,7 +191,7 @@ SRef(fn, a) ==
 
 RefFns == {"length", "element", "index", "hasindex", "lookup", "contains", "keys", "values", "merge", "concat", "slice", "chunklist", "distinct",
            "compact", "reverselist", "sort", "zipmap", "range", "coalesce", "coalescelist", "setunion", "setintersection", "setsubtract",
-           "setsymmetricdifference", "sethaselement"}
+           "setsymmetricdifference", "sethaselement", "flatten"}
 
 \* observed vs reference: canonical forms (sets as sets); the reference for set functions is already canonical
 MatchS(o, r) == IF r.st = "k" /\ Has(r.v, "z") THEN Canon(o) = r ELSE Canon(o) = Canon(r)
